@@ -52,6 +52,9 @@ func (f Filt) String() string {
 	return "A=" + as + " K=" + kss
 }
 
+// arg is the filter as the driver's `ADDRS KEYS` arguments.
+func (f Filt) arg() string { return strings.NewReplacer("A=", "", "K=", "").Replace(f.String()) }
+
 func (f Filt) real() ([]felt.Address, [][]felt.Felt) {
 	addrs := make([]felt.Address, len(f.Addrs))
 	for i, a := range f.Addrs {
@@ -161,14 +164,26 @@ func (p Page) String() string {
 func errClass(err error) string {
 	s := err.Error()
 	switch {
+	case strings.HasPrefix(s, "rpc error 33 "):
+		return "rpc:badtoken"
+	case strings.HasPrefix(s, "rpc error 31 "):
+		return "rpc:pagetoobig"
+	case strings.HasPrefix(s, "rpc error 34 "):
+		return "rpc:toomanykeys"
+	case strings.HasPrefix(s, "rpc error 24 "):
+		return "rpc:blocknotfound"
+	case strings.HasPrefix(s, "rpc error 68 "):
+		return "rpc:toomanyblocksback"
+	case strings.HasPrefix(s, "rpc error -32602 "):
+		return "rpc:invalidparams"
+	case strings.HasPrefix(s, "rpc error -32603 ") && strings.HasSuffix(s, "<nil>"):
+		return "rpc:internal"
 	case strings.Contains(s, "key not found"), strings.Contains(s, "Key not found"):
 		return "notfound"
 	case strings.Contains(s, "injected fault"):
 		return "io"
 	case strings.Contains(s, "pruned"), strings.Contains(s, "retention floor"):
 		return "pruned"
-	case strings.Contains(s, "continuation token is invalid"):
-		return "badtoken"
 	case strings.Contains(s, "not within range"):
 		return "range"
 	case strings.Contains(s, "bounds mismatch"):
